@@ -351,7 +351,7 @@ func wildWalk(rest, path Expr, nodes []any, cb func(path Expr, nodes []any), f F
 				cb(path, nodes)
 			}
 			if f != nil {
-				f.Walk(rest, path, nodes, cb)
+				wildWalk(rest, path, nodes, cb, f)
 			}
 		}
 	case map[string]any:
@@ -371,7 +371,7 @@ func wildWalk(rest, path Expr, nodes []any, cb func(path Expr, nodes []any), f F
 					cb(path, nodes)
 				}
 				if f != nil {
-					f.Walk(rest, path, nodes, cb)
+					wildWalk(rest, path, nodes, cb, f)
 				}
 			}
 		}
@@ -385,7 +385,7 @@ func wildWalk(rest, path Expr, nodes []any, cb func(path Expr, nodes []any), f F
 				cb(path, nodes)
 			}
 			if f != nil {
-				f.Walk(rest, path, nodes, cb)
+				wildWalk(rest, path, nodes, cb, f)
 			}
 		}
 	case gen.Object:
@@ -405,7 +405,7 @@ func wildWalk(rest, path Expr, nodes []any, cb func(path Expr, nodes []any), f F
 					cb(path, nodes)
 				}
 				if f != nil {
-					f.Walk(rest, path, nodes, cb)
+					wildWalk(rest, path, nodes, cb, f)
 				}
 			}
 		}
@@ -419,7 +419,7 @@ func wildWalk(rest, path Expr, nodes []any, cb func(path Expr, nodes []any), f F
 				cb(path, nodes)
 			}
 			if f != nil {
-				f.Walk(rest, path, nodes, cb)
+				wildWalk(rest, path, nodes, cb, f)
 			}
 		}
 	case Keyed:
@@ -434,7 +434,7 @@ func wildWalk(rest, path Expr, nodes []any, cb func(path Expr, nodes []any), f F
 				cb(path, nodes)
 			}
 			if f != nil {
-				f.Walk(rest, path, nodes, cb)
+				wildWalk(rest, path, nodes, cb, f)
 			}
 		}
 	case nil, bool, string, float64, float32, gen.Bool, gen.Float, gen.String,
@@ -462,7 +462,7 @@ func wildWalk(rest, path Expr, nodes []any, cb func(path Expr, nodes []any), f F
 							cb(path, nodes)
 						}
 						if f != nil {
-							f.Walk(rest, path, nodes, cb)
+							wildWalk(rest, path, nodes, cb, f)
 						}
 					}
 				}
@@ -479,7 +479,7 @@ func wildWalk(rest, path Expr, nodes []any, cb func(path Expr, nodes []any), f F
 							cb(path, nodes)
 						}
 						if f != nil {
-							f.Walk(rest, path, nodes, cb)
+							wildWalk(rest, path, nodes, cb, f)
 						}
 					}
 				}
@@ -499,7 +499,7 @@ func wildWalk(rest, path Expr, nodes []any, cb func(path Expr, nodes []any), f F
 							cb(path, nodes)
 						}
 						if f != nil {
-							f.Walk(rest, path, nodes, cb)
+							wildWalk(rest, path, nodes, cb, f)
 						}
 					}
 				}
